@@ -156,7 +156,8 @@ class Job:
 
 def merge_stats(jobs):
     total = {"evaluations": 0, "nontrivial_total": 0, "failures": 0, "classes": {},
-             "samples": [], "per_job": [], "exhaustive": []}
+             "samples": [], "per_job": [], "exhaustive": [], "rc_classes": {},
+             "rc_evaluations": 0}
     fps = set()
     for j in jobs:
         jev = 0
@@ -172,6 +173,10 @@ def merge_stats(jobs):
             total["failures"] += st.get("failures", 0)
             for k, v in st.get("classes", {}).items():
                 total["classes"][k] = total["classes"].get(k, 0) + v
+                if j.kind == "rc":
+                    total["rc_classes"][k] = total["rc_classes"].get(k, 0) + v
+            if j.kind == "rc":
+                total["rc_evaluations"] += st.get("evaluations", 0)
             for s in st.get("samples", []):
                 if len(total["samples"]) < 8 and s not in total["samples"]:
                     total["samples"].append(s)
@@ -367,10 +372,12 @@ def main():
 
     # ---- generator health ----------------------------------------------------
     degraded = []
-    ev = max(1, total["evaluations"])
+    # floors are measured on the rapidcheck jobs (the generator whose distribution is designed;
+    # the fuzzer's distribution is coverage-driven)
+    ev = max(1, total["rc_evaluations"])
     for cls, floor in prop.get("floors", {}).get(tier, prop.get("floors", {}).get("any", {})).items():
-        got = total["classes"].get(cls, 0)
-        base = total["classes"].get(prop.get("floor_base", {}).get(cls, ""), 0) or ev
+        got = total["rc_classes"].get(cls, 0)
+        base = total["rc_classes"].get(prop.get("floor_base", {}).get(cls, ""), 0) or ev
         if got / base < floor:
             degraded.append(f"class {cls}: {got}/{base} < floor {floor}")
     min_wall = prop.get("min_search_s", {}).get(tier, 0)
